@@ -45,6 +45,15 @@ def _gen_multi(ch):
 def gen(ch, tier):
     if ch.coin('multi', 1, 5):
         return _gen_multi(ch)
+    if ch.coin('scripted', 1, 7):
+        # one real agent and a conforming scripted peer that, after SESS_TERM went both ways, waits for the agent to close
+        # (between two real agents the other side's own close hides an agent that would never close by itself); short writes
+        # and a bounded socket buffer place back-pressure on the agent's last messages
+        from props import C18
+        plan = C18._gen_scripted(ch)
+        plan['terminate'] = ch.choice('sterm2', ('peer', 'peer', 'user'))
+        plan['peer_waits'] = True
+        return plan
     prof = dict(min_one=False, backpressure=True, max_bundles=4, liveness=False, terminate=True,
                 big=32768, max_segments=200, allow_zero=ch.coin('allow0', 1, 8))
     mode = ch.weighted('mode', (6, 3, 2))
@@ -205,11 +214,18 @@ def _execute_multi(plan, sched, verbose):
 def execute(plan, sched, verbose=False):
     if plan.get('scenario') == 'tcpcl_multi':
         return _execute_multi(plan, sched, verbose)
+    if plan.get('scenario') == 'tcpcl_scripted':
+        from props import C18
+        run = C18._execute_scripted(plan, sched, verbose)
+        # of what that engine judges, the termination clauses belong here
+        run.viols = [('close', viol[1] + '-scripted-peer', viol[2]) for viol in run.viols if viol[0] == 'idle' and (viol[1].startswith('not-closed') or viol[1].startswith('no-sess-term-reply'))]
+        run.scripted = True
+        return run
     return tcpcl_pair.run_plan(plan, sched, verbose)
 
 
 def judge(run):
-    if isinstance(run, _MRun):
+    if isinstance(run, _MRun) or getattr(run, 'scripted', False):
         return run.viols
     obs = tc.Obs(run)
     run.obs = obs
@@ -219,6 +235,12 @@ def judge(run):
 
 
 def describe(run):
+    if getattr(run, 'scripted', False):
+        counters = dict(run.wld.counters)
+        counters.update(run.stats)
+        counters['engine.scripted'] = 1
+        return dict(nontrivial=bool(run.stats.get('wire.SESS_TERM')), key=run.wld.digest(), sim_us=run.wld.now, steps=run.wld.steps, capped=run.wld.capped,
+                    counters=counters, sample=dict(engine='scripted', role=run.plan['role'], terminate=run.plan['terminate'], ops=run.plan['ops'][:10]))
     if isinstance(run, _MRun):
         counters = dict(run.wld.counters)
         counters.update(run.stats)
